@@ -31,6 +31,11 @@ def parseFlow (t : String) : Option Spec.Flow :=
 def parseWOp (t : String) : Option WOp :=
   if t = "u" then some .unknownPid
   else if t = "%" then some .unknownJobId
+  else if t = "%st" then some (.byName 1)
+  else if t = "%nap" then some (.byName 2)
+  else if t = "%%" ∨ t = "%+" then some .current
+  else if t = "%-" then some .previous
+  else if t.startsWith "%" then (t.drop 1).toString.toNat?.map .number
   else t.toNat?.map .job
 
 def parseStmt (t : String) : Option Stmt :=
@@ -42,6 +47,19 @@ def parseStmt (t : String) : Option Stmt :=
   | "fp" :: fs => if fs.length < 2 then none else (fs.mapM parseFlow).map .flow
   | "bg" :: ms => if ms.isEmpty then none else (ms.mapM parseMember).map .bg
   | "wj" :: ks => if ks.isEmpty then none else (ks.mapM parseWOp).map .wj
+  | ["m1"] => some (.monitor true)
+  | ["m0"] => some (.monitor false)
+  | ["bn", ms, n] => do pure (.bn (← ms.toNat?) (← n.toNat?))
+  | ["k", sig, k] => k.toNat?.map (.kill sig)
+  | ["tw", sig, n] => n.toNat?.map (.tw sig)
+  | ["ti"] => some .ti
+  | ["gj", k] => k.toNat?.map .gj
+  | ["wx"] => some .wx
+  | ["sc", n] => n.toNat?.map .sc
+  | ["scp", n] => n.toNat?.map .scp
+  | "fpo" :: fs => if fs.length < 2 then none else (fs.mapM parseFlow).map .flow
+  | "fpi" :: fs => if fs.length < 2 then none else (fs.mapM parseFlow).map .flow
+  | "fpb" :: fs => if fs.length < 2 then none else (fs.mapM parseFlow).map .flow
   | ["w"] => some .w
   | ["wu"] => some .wu
   | ["g", n] => n.toNat?.map .g
